@@ -300,7 +300,14 @@ def check(prop, tier, run: Run, replay_case=None):
         from . import site
         ren = {"C09.total_process_is_sum_of_zones": "C03.total_process_lists_zone_sums"}
         run.register_matcher("kf_cu_sign", kf_cu_sign)
+        from . import defaults
+        defaults.check_part(run, tier)
         site.site_leg(run, tier, ["quick2", "near", "cusign"] if tier == "quick" else ["quick2", "near", "cusign", "deep3"],
                       lambda c: ren.get(c, c if c.startswith("C03.") else None))
+    if prop == "C04":
+        # through the service: requests whose utilities carry a declared duty, switched-off utilities, Both headers (SiteGen ladders);
+        # the end values of the utility GCC (duty sums) may not exceed those of the process GCC (seed C04f)
+        from . import site
+        site.site_leg(run, tier, ["quick2"], lambda c: c if c.startswith("C04.") else None)
     if tier == "thorough":
         mutant_selftest(run)
